@@ -45,7 +45,7 @@ pub fn main(args: &[String]) -> i32 {
     let bounds_nums = ["0", "1", "2", "255", "65535", "65536", "2147483647", "2147483648", "4294967295", "4294967296",
         "9223372036854775807", "9223372036854775808", "18446744073709551614", "18446744073709551615",
         "18446744073709551616", "99999999999999999999", "340282366920938463463374607431768211456", "007", "00000000000000000000000000000001"];
-    for _ in 0..count {
+    for iter_k in 0..count {
         let xsd = rng.chance(p.xsd_percent);
         let mut pat = gen::gen_pattern(&mut rng, &p, xsd);
         match mode.as_str() {
@@ -85,10 +85,12 @@ pub fn main(args: &[String]) -> i32 {
                 };
             }
             "bounds" => {
-                let body = *rng.pick(&bounds_bodies);
-                let n = *rng.pick(&bounds_nums);
+                // every (body, bound, form) combination is visited in turn; context and second bound are random
+                let k = iter_k as usize;
+                let body = bounds_bodies[k % bounds_bodies.len()];
+                let n = bounds_nums[(k / bounds_bodies.len()) % bounds_nums.len()];
                 let m = *rng.pick(&bounds_nums);
-                let q = match rng.below(5) {
+                let q = match (k / (bounds_bodies.len() * bounds_nums.len())) % 5 {
                     0 => format!("{{{}}}", n),
                     1 => format!("{{{},}}", n),
                     2 => format!("{{0,{}}}", n),
@@ -96,8 +98,9 @@ pub fn main(args: &[String]) -> i32 {
                     _ => format!("{{1,{}}}", n),
                 };
                 let lazy = if rng.chance(30) { "?" } else { "" };
-                let tail = *rng.pick(&["", "a", "$", "b", "\\1"]);
-                let head = *rng.pick(&["", "^", "x?", "(x)?"]);
+                let tail = *rng.pick(&["", "a", "$", "b", "\\1", "|x", "|"]);
+                let head = *rng.pick(&["", "^", "x?", "(x)?", "x|", "^x|^", "(?:y|"]);
+                let tail = if head == "(?:y|" { ")z" } else { tail };
                 pat = format!("{}{}{}{}{}", head, body, q, lazy, tail);
             }
             _ => {}
